@@ -563,3 +563,34 @@ func init() {
 		Outside: []string{"concurrent schedules of the cache (sequentialised)", "websocket/HTTP poller I/O"},
 	})
 }
+
+func init() {
+	register(&PropSpec{
+		ID:     "C19",
+		Pkgs:   []string{"./shovel/web", "./cmd/shovel"},
+		Static: routeCheck,
+		Runs: func(tier string) []HRun {
+			var rs []HRun
+			for cookie := 0; cookie <= 3; cookie++ {
+				rs = append(rs, HRun{Pkg: "./shovel/web", Fn: "ZZ_C19_Authn", Params: []int{cookie}})
+			}
+			pl, sl := []int{0, 1, 4}, []int{0, 1, 4, 5, 16}
+			if tier == "thorough" {
+				pl, sl = []int{0, 1, 2, 4, 8, 16}, []int{0, 1, 2, 4, 5, 8, 9, 15, 16, 17}
+			}
+			for _, p := range pl {
+				for _, s := range sl {
+					rs = append(rs, HRun{Pkg: "./shovel/web", Fn: "ZZ_C19_Login", Params: []int{p, s}})
+				}
+			}
+			return rs
+		},
+		Assumptions: []string{
+			"cut points (engine redirects, same textual cuts natively): session.Get/Set (Get succeeds iff the cookie state is 'minted by this process'), http.Redirect/Error, Request.ParseForm/FormValue, net.SplitHostPort (malformed = solver Boolean), net.ParseIP(host).IsLoopback (oracle Boolean), Handler.template, age.GenerateX25519Identity",
+			"both switches, the loopback oracle, malformed address, form parse failure are solver Booleans; HTTP method and cookie state are case-split; configured and supplied passwords are symbolic strings of case-split length; the generated password is 8 arbitrary random bytes rendered in hex",
+			"route table: read structurally from the SSA of cmd/shovel main (not a solver query): the five protected endpoints and any /save-* or /add-* path must be registered with a value produced by Authn",
+		},
+		Bounds:  map[string]string{"quick": "4 cookie states x 5 methods; password lengths {0(generated),1,4} x supplied lengths {0,1,4,5,16}", "thorough": "6 x 10 length pairs"},
+		Outside: []string{"age/session cryptography and cookies surviving a restart", "net.ParseIP itself"},
+	})
+}
